@@ -50,8 +50,8 @@ ROUND 3: seeded/C06-r3m3 (extended-slice size pre-check skipped for NEGATIVE ste
 step 2; it now draws steps from {2, 3, -1, -2, 100, -100, 0}, reversed full slices (lst[::-1], lst[n-1:0:-1]) with the
 right size, one item too many and one too few, and del lst[::step] -> caught with concrete replays (X_IOSetSlice ... -1).
 The snapshot also covers Value.shape / Value.type, and gen_merge_shapes exercises Value.merge_shapes (compatible merges,
-rank mismatch, a conflicting dimension at every position after dimensions the merge refines).  NEW FINDING on the
-unchanged tree, key merge-shapes-partial (known_findings.d/C06.json): a rejected merge_shapes on a non-frozen shape
+rank mismatch, a conflicting dimension at every position after dimensions the merge refines).  FINDING, key
+merge-shapes-partial (REPAIRED by /repo 8a605e8, entry now status=fixed, witness in corpus/C06): a rejected merge_shapes on a non-frozen shape
 leaves the dimensions refined so far ([None, 3] + [5, 4] raises and leaves [5, 3]); proposed_fixes/
 C06-merge-shapes-atomic.diff computes all merged dimensions before writing any (keeps the documented in-place update:
 502 _core tests pass; a first attempt that merged into a copy broke test_merge_shapes_modifies_value_shape_in_place).
